@@ -156,6 +156,55 @@ def binding_map_leg(chk):
     chk.cov["binding_map_sequences"] = len(cases)
 
 
+ABLATION = [
+    # (container open, child class, binding) -- attached members in every kind of container, bindings on pseudo objects; values differ from every default
+    *[(cont, "QLabel", "QLayout.%s: %s" % (m, v)) for cont in ("QVBoxLayout {", "QHBoxLayout {", "QGridLayout {", "QFormLayout {", "QGridLayout { columns: 2", "QGridLayout { flow: QGridLayout.TopToBottom; rows: 2")
+      for m, v in (("row", 2), ("column", 1), ("rowSpan", 2), ("columnSpan", 2), ("alignment", "Qt.AlignRight"), ("rowStretch", 3), ("columnStretch", 4),
+                   ("rowMinimumHeight", 17), ("columnMinimumWidth", 19))],
+    *[("QTabWidget {", "QWidget", b) for b in ('QTabWidget.title: "T"', 'QTabWidget.toolTip: "tip"', 'QTabWidget.whatsThis: "w"', "QLayout.row: 1")],
+    *[("QWidget {", "QLabel", b) for b in ('QTabWidget.title: "T"', "QLayout.row: 1", "QLayout.alignment: Qt.AlignRight", "QLayout.columnStretch: 2")],
+    *[("QVBoxLayout {", "QSpacerItem", b) for b in ("orientation: Qt.Horizontal", "sizeHint.width: 33", "sizeHint.height: 44", "orientation: chk.checked ? Qt.Horizontal : Qt.Vertical",
+                                                     "sizeHint.width: spin.value", "QLayout.rowStretch: 2", "QLayout.alignment: Qt.AlignRight")],
+    *[("QGridLayout {", "QSpacerItem", b) for b in ("QLayout.row: 1", "QLayout.column: 2", "QLayout.columnStretch: 3", "sizeHint.height: spin.value")],
+    *[("QWidget {", "QAction", b) for b in ('text: "t"', "checkable: true", "enabled: chk.checked", 'toolTip: edit.text', "separator: true", "separator: chk.checked", 'shortcut: "Ctrl+K"')],
+    *[("QVBoxLayout {", "QVBoxLayout", b) for b in ("spacing: 7", "spacing: spin.value", "contentsMargins.left: 3", "contentsMargins.left: spin.value", "QLayout.rowStretch: 2", "sizeConstraint: QLayout.SetFixedSize")],
+    *[("QFormLayout {", "QHBoxLayout", b) for b in ("QLayout.row: 1", "QLayout.column: 1", "QLayout.columnSpan: 2", "QLayout.rowStretch: 2", "spacing: 9")],
+    *[("QMenu {", "QMenu", b) for b in ('title: "sub"', "title: edit.text", "enabled: chk.checked", "QLayout.row: 1")],
+    *[("QComboBox {", None, b) for b in ('model: ["a", "b"]', 'model: chk.checked ? ["a"] : ["b"]', "currentIndex: 1")],
+    *[("QTableView {", None, b) for b in ("horizontalHeader.visible: false", "horizontalHeader.defaultSectionSize: 41", "horizontalHeader.visible: chk.checked", "verticalHeader.stretchLastSection: true")],
+]
+
+
+def ablation_leg(chk):
+    """no binding is silently ignored: the document with the binding and the document without it differ in the .ui, in the support header or in the diagnostics
+    (generate mode).  The oracle needs no knowledge of which container consumes which attached member."""
+    reqs = []
+    for n, (cont, child, binding) in enumerate(ABLATION):
+        for with_b in (True, False):
+            inner = ("%s { id: x\n        %s\n      }" % (child, binding if with_b else "")) if child else (binding if with_b else "")
+            qml = ("import qmluic.QtWidgets\nQWidget {\n  id: root\n  QCheckBox { id: chk }\n  QSpinBox { id: spin }\n  QLineEdit { id: edit }\n"
+                   "  QWidget {\n    %s\n      id: host\n      %s\n    }\n  }\n}\n" % (cont, inner))
+            if cont in ("QComboBox {", "QTableView {", "QMenu {", "QTabWidget {", "QWidget {"):
+                qml = qml.replace("  QWidget {\n    %s" % cont, "  QWidget {\n   QVBoxLayout {\n    %s" % cont).replace("    }\n  }\n}\n", "    }\n   }\n  }\n}\n")
+            reqs.append({"id": "%d%s" % (n, "w" if with_b else "o"), "src": qml, "type_name": "Doc", "modes": ["generate"]})
+    res = translate(reqs, metatypes=[QT5_METATYPES])
+    n_diag = 0
+    for n, (cont, child, binding) in enumerate(ABLATION):
+        w, o = res["%dw" % n]["generate"], res["%do" % n]["generate"]
+        chk.count({"ablation": [cont, child, binding]}, nontrivial=True)
+        if any(x.get("panic") or x.get("timeout") or x.get("crash") for x in (w, o)):
+            continue
+        if o.get("n_errors"):
+            raise ToolError("ablation: the reference document for `%s` in `%s` is not accepted: %s" % (binding, cont, [d["msg"] for d in o["diags"]][:2]))
+        same = w.get("ui") == o.get("ui") and w.get("header") == o.get("header")
+        if w.get("n_errors"):
+            n_diag += 1
+        elif same:
+            chk.violation("binding `%s` on a %s in `%s }` changes neither the .ui nor the header and is not diagnosed" % (binding, child or "the object itself", cont),
+                          {"qml": reqs[2 * n]["src"], "ui": w.get("ui"), "header": w.get("header")})
+    chk.cov["ablation_cases"] = {"cases": len(ABLATION), "diagnosed": n_diag}
+
+
 def run(chk):
     build_harness()
     qmluic = build_cli()
@@ -221,4 +270,5 @@ def run(chk):
     chk.cov["programs"] = len(items)
     chk.sample({"document": items[len(names) + 3][1], "qml": built[items[len(names) + 3][0]][0], "expected_places": exp[items[len(names) + 3][0]]["places"]["generate"]})
     binding_map_leg(chk)
+    ablation_leg(chk)
     chk.cov["trusted_base"] = ["expat + regex detectors in vlib/catalog.py", "TLC", "Pipeline.tla", "os.stat / sha1 for the output directory"]
